@@ -81,6 +81,9 @@ func TestPropSpoolOutage(t *testing.T) {
 				go func() { x.D.Shutdown(); close(done) }()
 				select {
 				case <-done:
+					for _, q := range eps {
+						q.WaitPeerClosed(2 * time.Second)
+					}
 				case <-time.After(20 * time.Second):
 				}
 			}
@@ -247,6 +250,9 @@ func TestPropSpoolOutage(t *testing.T) {
 		select {
 		case <-done:
 			shutdownDone = true
+			for _, q := range eps {
+				q.WaitPeerClosed(2 * time.Second)
+			}
 		case <-time.After(20 * time.Second):
 			// not part of this property (a destination whose connection has just died can wedge in Shutdown/Flush:
 			// the relay loop asks a connection writer that has already exited to flush); recorded, not reported
